@@ -24,14 +24,15 @@ LEVEL = 'proof'
 THEOREMS = [
     'CC.C19_dup_id_network', 'CC.C19_dup_id', 'CC.C19_dup_id_positions', 'CC.C19_dup_id_exception',
     'CC.C19_floating_ground', 'CC.C19_floating_ground_circuit', 'CC.C19_multi_ground', 'CC.C19_multi_ground_exception',
-    'CC.C19_negative_table_partial', 'CC.C19_negative_table_counterexample', 'CC.C19_guards_are_sign_guards',
+    'CC.C19_negative_table', 'CC.C19_guards_are_sign_guards',
     'CC.C19_negative', 'CC.C19_negative_first', 'CC.C19_zero_passes_guards', 'CC.C19_zero_accepted',
     'CC.C19_any_bad_entry_rejects', 'CC.C19_first_bad_entry', 'CC.C19_unknown_kind', 'CC.C19_missing_field',
-    'CC.C19_missing_value_key', 'CC.bindParams_missing', 'CC.C19_unknown_wave', 'CC.C19_unknown_wave_counterexample',
+    'CC.C19_missing_value_key', 'CC.bindParams_missing', 'CC.bindParams_lookup',
+    'CC.C19_unknown_wave', 'CC.C19_wave_checked', 'CC.C19_unknown_wave_construct',
     'CC.C19_unknown_query', 'CC.C19_unknown_query_potential', 'CC.C19_unknown_query_wrappers',
     'CC.C19_stored_unaltered', 'CC.C19_param_stored',
 ]
-OPEN_STATEMENTS = ['CC.C19_negative_table_statement', 'CC.C19_unknown_wave_statement']
+OPEN_STATEMENTS = []
 ASSUMPTIONS = [
     'Python keyword binding (missing / unexpected keyword ⇒ TypeError) and comparison of a str or complex with a number (⇒ TypeError) are modelled as such',
     'the time-domain, frequency-domain and transient solution classes, load_network and create_schematic are not modelled: their fault classes are checked on the implementation only',
@@ -341,8 +342,6 @@ def check_loaders(ctx, out):
                 if other is not e:
                     faults.append(('dup_id', dict(e, id=other['id'])))
             for fault, bad in faults:
-                if fault == 'negative' and e['type'] in ('periodic_current_source',):
-                    continue
                 es = copy.deepcopy(entries); es[pos] = copy.deepcopy(bad)
                 snap = copy.deepcopy(es)
                 res = attempt(lambda: load(es))
@@ -466,6 +465,12 @@ def check_queries(ctx, out):
         unknown = ['nope', '', ' ', 'gnd ', sorted(ids)[0] + "'", sorted(labels)[0] + '_']
         node_only = [n for n in labels if n not in ids][:2]       # a node label is no component id
         id_only = [i for i in ids if i not in labels][:2]         # a component id is no node label
+        for cls, S in sols.items():                              # the reference node itself is a known node
+            r = attempt(lambda: S.get_potential(C.ground_node))
+            out.evaluations += 1
+            if r[0] != 'ok':
+                out.spec_fail(dict(op='query', cls=cls, accessor='get_potential', symptom='reference_rejected'),
+                              f'{cls}.get_potential(<reference node>) raises', dict(cls=cls, components=gc.pretty(descs)), impl=repr(r[1]))
         for cls, S in sols.items():
             for acc in ('get_potential', 'get_voltage', 'get_current', 'get_power'):
                 names = list(unknown) + (id_only if acc == 'get_potential' else node_only)
